@@ -46,7 +46,7 @@ class _IMTLGWeighting(_Weighting):
             v = torch.ones(matrix.shape[0], device=matrix.device, dtype=matrix.dtype)
 
         v_sum = v.sum()
-        if v_sum.abs() < 1e-12:
+        if v_sum.abs() <= 1e-12 * v.abs().sum():
             weights = torch.zeros_like(v)
         else:
             weights = v / v_sum
